@@ -1,4 +1,5 @@
 import EinxModel.Proofs.CseTreesSound
+import EinxModel.Proofs.CseTreesFilter
 /-!
 C02, CSE part — **the model of the whole of `stage2/cse.py` preserves the solution set**.
 
@@ -14,8 +15,9 @@ einx in `docs/wp/cse.md` (a user axis called `cse.<n>`; a bracketed second occur
 
 What `cseCheck` demands (all of it computed from the input by the model, nothing supplied by the harness):
 * `wfForest`: a `ConcatenatedAxis` has at least two children, none of them a `List` (facts of stage2/tree.py);
-* per replaced part `e` (`usedOK`): the filter of `cse` — `_value_range(e)` is not `None`, no axis repeats, lower bounds
-  positive —, an unknown value has an unbounded range, and a part replaced at root level has one dimension;
+* per replaced part `e` (`usedOK`): lower bounds positive, an unknown value has an unbounded range, and a part replaced
+  at root level has one dimension.  That every replaced part passed the filter of `cse` — `_value_range(e)` is not
+  `None`, no axis repeats — is **not** demanded: it is proved for every input (`cse_trees_is_cse_step`);
 * per pair of events (`pairOK`): parts replaced by the same `cse.<k>` have the same shape (print alike, same unknown
   axes); parts replaced by different `cse.<k>` have disjoint unknown axes; an unknown axis that is copied to the output
   is neither inside a replaced part nor called `cse.<k>`.
@@ -37,7 +39,7 @@ theorem cseTrees_preserves_sols_partial (opts : Opts) (rs out : List (Option VEx
         ∀ k e len r, Ev.used k e len r ∈ cseEvents opts rs → valueOf e = none → evalV σ e = σ' (cseName k)) := by
   simp only [cseCheck, Bool.and_eq_true] at hchk
   obtain ⟨hwf, htr⟩ := hchk
-  have hf := traceOK_facts htr
+  have hf := traceOK_facts htr (filt_cseEvents opts rs)
   have hrun' : replaceRoots (candidates opts rs) 0 rs = .ok out := hrun
   have hpos := evPos_of_facts hf
   obtain ⟨hdo, hdi⟩ := roots_decls (candidates opts rs) rs 0 out hrun' hpos
@@ -60,7 +62,7 @@ theorem cseTrees_preserves_sols_partial (opts : Opts) (rs out : List (Option VEx
       rw [h1]
       exact hb (n, m) (by rw [hdi]; exact List.mem_flatMap.mpr ⟨_, hev, by simp [inDecls]⟩)
     | used k e len r =>
-      obtain ⟨_, ⟨m, ub, hrange, hub⟩, hnorep, hminpos, _⟩ := usedOK_spec (hf.used _ hev)
+      obtain ⟨_, ⟨m, ub, hrange, hub⟩, hnorep, hminpos, _⟩ := usedOK_spec (hf.used _ hev) (hf.filt _ hev)
       cases hv : valueOf e with
       | some v => simp [outDecls, hv] at hpe
       | none =>
@@ -116,7 +118,7 @@ theorem cseTrees_forced_iff_partial (opts : Opts) (rs out : List (Option VExpr))
     (hx : Ev.surv x m ∈ cseEvents opts rs) (v : Nat) :
     (∀ σ, Sat (forestSys rs) σ → σ x = v) ↔ (∀ σ', Sat (forestSys out) σ' → σ' x = v) := by
   obtain ⟨ha, hb⟩ := cseTrees_preserves_sols_partial opts rs out hrun hchk
-  have hf := traceOK_facts (by simp only [cseCheck, Bool.and_eq_true] at hchk; exact hchk.2)
+  have hf := traceOK_facts (by simp only [cseCheck, Bool.and_eq_true] at hchk; exact hchk.2) (filt_cseEvents opts rs)
   constructor
   · intro h σ' hσ'
     obtain ⟨σ, hσ, hfr, _⟩ := hb σ' hσ'
@@ -139,7 +141,7 @@ theorem cseTrees_value_forced_iff_partial (opts : Opts) (rs out : List (Option V
     (hu : Ev.used k e len r ∈ cseEvents opts rs) (hv : valueOf e = none) (v : Nat) :
     (∀ σ, Sat (forestSys rs) σ → evalV σ e = v) ↔ (∀ σ', Sat (forestSys out) σ' → σ' (cseName k) = v) := by
   obtain ⟨ha, hb⟩ := cseTrees_preserves_sols_partial opts rs out hrun hchk
-  have hf := traceOK_facts (by simp only [cseCheck, Bool.and_eq_true] at hchk; exact hchk.2)
+  have hf := traceOK_facts (by simp only [cseCheck, Bool.and_eq_true] at hchk; exact hchk.2) (filt_cseEvents opts rs)
   constructor
   · intro h σ' hσ'
     obtain ⟨σ, hσ, _, hval⟩ := hb σ' hσ'
@@ -149,17 +151,31 @@ theorem cseTrees_value_forced_iff_partial (opts : Opts) (rs out : List (Option V
     have hg := (good_forward hf σ _ hu).2.1 hv
     rw [← hg]; exact this
 
-/-- **Every replacement performed by `cseTrees` on a checked input satisfies the premises of `CseStep` that concern the
-replaced expression** (`valueRange_spec` applies to it): `_value_range` is not `None`, no axis repeats, bounds positive;
-and the new axis is declared with the minimum `_value_range` reports. -/
+/-- **Every replacement performed by `cseTrees` satisfies the premises of `CseStep` about the filter — for every input
+and both options, no side condition**: what is replaced (a node, or a run of children of a `List`) is an exprlist of a
+final candidate (the two searches of `replace` find nothing else, and an exprlist consists of the nodes at its
+identities), and every exprlist of a final candidate passed `_value_range(...) is not None and not
+_has_repeated_axis(...)`; no later step of `cse` adds exprlists. -/
+theorem cse_trees_is_cse_step (opts : Opts) (rs : List (Option VExpr)) (k : Nat) (e : VExpr) (len : Nat) (r : Bool)
+    (hu : Ev.used k e len r ∈ cseEvents opts rs) :
+    0 < len ∧ (∃ m ub, valueRange e = some (m, ub)) ∧ hasRepeatedAxis e = false := by
+  obtain ⟨h1, h2, h3⟩ := filt_cseEvents opts rs _ hu
+  refine ⟨h1, ?_, h3⟩
+  cases hr : valueRange e with
+  | none => simp [hr] at h2
+  | some p => exact ⟨p.1, p.2, rfl⟩
+
+/-- … and on a checked input the remaining premises of `CseStep` that concern the replaced expression hold too
+(`valueRange_spec` applies to it): bounds positive, an unknown value has an unbounded range, and the new axis is
+declared with the minimum `_value_range` reports. -/
 theorem cse_trees_is_cse_step_partial (opts : Opts) (rs out : List (Option VExpr))
     (hrun : cseTrees opts rs = .ok out) (hchk : cseCheck opts rs = true) (k : Nat) (e : VExpr) (len : Nat) (r : Bool)
     (hu : Ev.used k e len r ∈ cseEvents opts rs) :
     ∃ m ub, valueRange e = some (m, ub) ∧ hasRepeatedAxis e = false ∧ MinPos e ∧
       (valueOf e = none → ub = true ∧ (cseName k, m) ∈ (forestSys out).vars) := by
   simp only [cseCheck, Bool.and_eq_true] at hchk
-  have hf := traceOK_facts hchk.2
-  obtain ⟨_, ⟨m, ub, hrange, hub⟩, hnorep, hminpos, _⟩ := usedOK_spec (hf.used _ hu)
+  have hf := traceOK_facts hchk.2 (filt_cseEvents opts rs)
+  obtain ⟨_, ⟨m, ub, hrange, hub⟩, hnorep, hminpos, _⟩ := usedOK_spec (hf.used _ hu) (hf.filt _ hu)
   obtain ⟨hdo, _⟩ := roots_decls (candidates opts rs) rs 0 out hrun (evPos_of_facts hf)
   refine ⟨m, ub, hrange, hnorep, hminpos, fun hv => ⟨hub hv, ?_⟩⟩
   show (cseName k, m) ∈ rootDecls out
